@@ -657,6 +657,7 @@ func TestPlonkSoundness(t *testing.T) {
 	g := genCase(curvesForTier())
 	rec.Check(t, "plonk", ev.N(200, 10000), func(rt *rapid.T) {
 		c := g.Draw(rt, "case")
+		rec.Begin("plonk", c)
 		rec.Report(rt, "plonk", c, run(c, rec))
 	})
 }
@@ -726,6 +727,7 @@ func TestPlonkKey(t *testing.T) {
 		p := zk.GenProvable(zk.ProvableCfg{Q: f.Q, MaxOps: 9, MaxCommits: 2, PFail: 30}).Draw(rt, "prog")
 		tau := new(big.Int).SetBytes(rapid.SliceOfN(rapid.Byte(), 8, 40).Draw(rt, "tau"))
 		c := KeyCase{Prog: p, Curve: cn, Tau: tau.Text(16)}
+		rec.Begin("plonkkey", c)
 		rec.Report(rt, "plonkkey", c, runKey(c))
 	})
 }
